@@ -70,12 +70,12 @@ func run(c gen.APICase) (res ev.Result) {
 }
 
 var histories = ev.NewCheck("C01", "api-histories",
-	"rapid: histories of New/NewSMF1/NewSMF2, TimeFormat (metric 1..32767, four SMPTE rates), NoRunningStatus, 1..6 tracks built by Track.Add (0..3 messages per call), Track.Close early/late/omitted, SMF.Add; messages from the public constructors (channel, all meta constructors, MetaUndefined, sysex F0..F7 / F0 without F7 / F7 escape, payloads up to 20000 bytes), deltas over uint32 biased to VLQ boundaries; oracle = pure model of the API compared with ReadFrom(WriteTo(v)): format, division, track count, every (delta, bytes) incl. end-of-track; non-trivial = a track with >=2 events plus one of {running-status run, payload>=128, delta>=128, SMPTE, early close, >=2 tracks}; distinct by case hash",
+	"rapid: histories of New/NewSMF1/NewSMF2, TimeFormat (metric 1..32767, four SMPTE rates), NoRunningStatus, 1..6 tracks built by Track.Add (0..3 messages per call), Track.Close early/late/omitted, SMF.Add; messages from the public constructors (channel, all meta constructors, MetaUndefined, sysex F0..F7 / F0 without F7 / F7 escape, payloads up to 70000 bytes), deltas over uint32 biased to VLQ boundaries; oracle = pure model of the API compared with ReadFrom(WriteTo(v)): format, division, track count, every (delta, bytes) incl. end-of-track; non-trivial = a track with >=2 events plus one of {running-status run, payload>=128, delta>=128, SMPTE, early close, >=2 tracks}; distinct by case hash",
 	func(t *rapid.T) gen.APICase {
-		return gen.API(t, gen.APIOpts{MaxTracks: 6, MaxOps: 10, MaxPayload: 20000, MaxDelta: 0xFFFFFFFF})
+		return gen.API(t, gen.APIOpts{MaxTracks: 6, MaxOps: 10, MaxPayload: 70000, MaxDelta: 0xFFFFFFFF})
 	}, run)
 
-func TestPropAPIHistories(t *testing.T) { histories.Rapid(t, 800, 6000) }
+func TestPropAPIHistories(t *testing.T) { histories.Rapid(t, 800, 60000) }
 
 // ManyCase: very many tiny tracks written and read back.
 type ManyCase struct {
